@@ -4,6 +4,25 @@ BASE_NOTE = ("Assumes: float64 treated as real arithmetic; mathematical contract
              "GTV kernel/shim (Python) trusted, cross-checked numerically; textbook axioms named in the evidence file.")
 
 CLAIMED = {
+    "C01": ("All products (multiply, *, hadamard, product()) of every measure kind with every factor kind, both update_full modes, "
+            "cached and uncached covariance, all four batch layouts: the real methods are executed symbolically and the real "
+            "evaluate_ln of the result is proved equal to lnf(u)_i + lnf(f)_j on the row-major pair axis (i,j); operands' attributes "
+            "are proved unchanged (frame).", BASE_NOTE, "DESIGN §6-C01"),
+    "C02": ("Mass queries are proved equal to the Gaussian integral formula lnmass (axiom G1) in every cache state and query order; "
+            "every constructor argument combination (full and diagonal) is proved to establish wf_pdf and to evaluate to N(x; mu, Sigma); "
+            "get_density / normalize are proved to divide by the mass; density-returning APIs are covered through wf clauses.",
+            BASE_NOTE + " G1 (Gaussian integral) is assumed.", "DESIGN §6-C02"),
+    "C03": ("Each of the 12 integrate keys, with shared / per-component / omitted coefficients, R generic or 1, cached or not, is proved "
+            "equal to exp(lnmass) times the Isserlis/Wick expansion generated combinatorially (subsets x perfect matchings), for "
+            "symbolic D, K, L, M, R.", BASE_NOTE + " G1, G2 (Isserlis) assumed; bit-exactness in exact mode is floating point and not claimed.",
+            "DESIGN §6-C03"),
+    "C04": ("Class invariant wf (Sigma*Lambda=I, ln det consistency via Lean-checked determinant lemmas, mu=Sigma nu, lnZ) is proved for "
+            "results, receiver and arguments of every product / query / normalize / product() operation from every cache state; "
+            "induction over histories follows because every operation preserves wf.", BASE_NOTE, "DESIGN §6-C04"),
+    "C08": ("affine_marginal_transformation of all five conditional kinds, layouts (1,1),(1,n),(n,1): mean and covariance proved equal to "
+            "M mu + b and Sigma + M Sigma_x M', result proved wf_pdf, and its log-density proved equal to ln of the Gaussian integral of "
+            "p(y|x)p(x) over x (G1) using Woodbury and Sylvester hints that the kernel checks; (n,m) refusal proved.",
+            BASE_NOTE + " G1 assumed.", "DESIGN §6-C08"),
     "C10": ("For every conditional kind and both batch conventions, the real set_y + evaluate_ln/product are executed on symbolic "
             "arrays with symbolic sizes N, Nx, Dx, Dy and the result is proved equal (normal form) to ln N(y; Mx+b, Sigma); "
             "holds for all sizes and values at once.", BASE_NOTE, "DESIGN §6-C10"),
